@@ -12,6 +12,10 @@ CONSTANTS
   ShareOnCopy = TRUE
   CloneBeforeAdd = TRUE
   RebindOnLarge = FALSE
+  Faults <- NoFaults
+  MaxFaults = 0
+  DeferUnlock = TRUE
+  StickyError = TRUE
   MaxH = 6
   MaxLogs = 0
   MaxGroups = 0
